@@ -1,9 +1,31 @@
-(* C05 — provisional property file: the Reader-side theorems are being proved in ReaderProofs.v /
-   LifecycleProofs.v; until they are integrated this file carries the header-level facts already closed. *)
-From LZ4V Require Import Base GenBlock GenStream GenLz4 XXH32 FrameImpl Writer Reader HeaderSpec HeaderProofs.
-Theorem C05_header_exact : header_exact_stmt.         Proof. exact header_exact. Qed.
+(* C05 — Reader acceptance is sound: integrity fields are always enforced. *)
+From LZ4V Require Import Base GenBlock GenStream GenLz4 XXH32 BlockFormat FrameSpec FrameImpl Writer Reader FrameTheoremsSpec ReaderProofs HeaderSpec HeaderProofs.
+(* for EVERY byte string whose first frame is not a legacy frame: whenever the Reader model completes
+   without error, the frame specification (an independent parser: header checksum, block-size code,
+   every block within the declared maximum and decoding under the block-format specification, every
+   declared block checksum, end mark, content checksum) accepts the same input, yields the same
+   output and has consumed the same number of bytes.  Checksum domain: decoded bytes (finding F10);
+   non-strict descriptor reading (the Reader ignores version/reserved bits and the declared size) *)
+Theorem C05_sound : forall input r' n out, bytes input -> not_legacy input -> len input < 2 ^ 42 ->
+  rstep (new_reader (src_of input)) RWriteTo = (r', RRes n ENil out) ->
+  frame_spec Decoded false input = Some (out, s_consumed (r_src r')) /\ n = len out.
+Proof. exact reader_sound_fixed_small. Qed.
+Print Assumptions C05_sound.
+(* and conversely: nothing the specification accepts is refused or altered *)
+Theorem C05_complete : forall input out k, bytes input -> not_legacy input -> len input < 2 ^ 42 ->
+  frame_spec Decoded false input = Some (out, k) ->
+  exists r', rstep (new_reader (src_of input)) RWriteTo = (r', RRes (len out) ENil out) /\ s_consumed (r_src r') = k
+             /\ r_state r' = lz4_closedState.
+Proof. exact reader_complete_fixed_small. Qed.
+Print Assumptions C05_complete.
+(* the same through Read with any buffer size *)
+Theorem C05_read : reader_read_eq_writeto_stmt.   Proof. exact reader_read_eq_writeto. Qed.
+Print Assumptions C05_read.
+(* legacy frames have no integrity fields; the full statement including them is FALSE of the model
+   (and of the code): a size word equal to the number of bytes decoded so far ends a legacy stream
+   (Linux-kernel trailer convention), which the format does not know *)
+Theorem C05_legacy_refuted : ~ reader_sound_stmt. Proof. exact reader_sound_refuted. Qed.
+Print Assumptions C05_legacy_refuted.
+(* header checksum and block-size code: exact for every header *)
+Theorem C05_header_exact : header_exact_stmt.     Proof. exact header_exact. Qed.
 Print Assumptions C05_header_exact.
-Theorem C05_skippable_exact : header_skippable_stmt.  Proof. exact header_skippable. Qed.
-Print Assumptions C05_skippable_exact.
-Theorem C05_badmagic : header_badmagic_stmt.          Proof. exact header_badmagic. Qed.
-Print Assumptions C05_badmagic.
